@@ -331,7 +331,8 @@ def run(ctx: Ctx):
     for m in mods:
         for fn in [n for n in ast.walk(m.tree) if isinstance(n, (ast.FunctionDef, ast.AsyncFunctionDef))]:
             _inline_trivial_closures(fn)
-            _inline_handle_aliases(fn)
+            for _ in range(4):  # a chain of temporaries (slots = tls.__dict__; active = slots.get(...); f = getattr(active, name))
+                _inline_handle_aliases(fn)
 
     core = repo.module("tensorly.backend.core")
     base_tenalg = repo.module("tensorly.tenalg.base_tenalg")
